@@ -1136,7 +1136,7 @@ pub fn c20_aiken_text(ctx: &Ctx, extra: &[String]) -> Report {
         }
     }
     // deep nesting / long chains in a child process (a stack overflow aborts the process)
-    let depths: &[usize] = if ctx.thorough { &[50, 200, 1000, 5000] } else { &[50, 200, 1000] };
+    let depths: &[usize] = if ctx.thorough { &[8, 12, 16, 20, 25, 50, 200, 1000, 5000] } else { &[12, 20, 50, 1000] };
     let exe = std::env::current_exe().expect("exe");
     let dir = std::env::temp_dir().join(format!("c20-{}", std::process::id()));
     let _ = std::fs::create_dir_all(&dir);
@@ -1155,9 +1155,9 @@ pub fn c20_aiken_text(ctx: &Ctx, extra: &[String]) -> Report {
         nested.push((format!("pattern-nesting-{d}"), format!("fn f(x) {{ when x is {{ {}y{} -> 1 }} }}", "Some(".repeat(d), ")".repeat(d))));
         nested.push((format!("when-nesting-{d}"), format!("fn f(x) {{ {}1{} }}", "when x is { _ -> ".repeat(d), " }".repeat(d))));
     }
-    for (name, src) in nested {
+    let statuses = par_map(&nested, |(name, src)| {
         let path = dir.join(format!("{name}.ak"));
-        std::fs::write(&path, &src).unwrap();
+        std::fs::write(&path, src).unwrap();
         let t0 = std::time::Instant::now();
         let mut child = std::process::Command::new(&exe)
             .arg("c20-one")
@@ -1166,10 +1166,10 @@ pub fn c20_aiken_text(ctx: &Ctx, extra: &[String]) -> Report {
             .stderr(std::process::Stdio::null())
             .spawn()
             .expect("spawn self");
-        let status = loop {
+        loop {
             match child.try_wait() {
                 Ok(Some(st)) => break Some(st),
-                Ok(None) if t0.elapsed().as_secs() > 4 * limit_s => {
+                Ok(None) if t0.elapsed().as_secs() > limit_s => {
                     let _ = child.kill();
                     let _ = child.wait();
                     break None;
@@ -1177,7 +1177,9 @@ pub fn c20_aiken_text(ctx: &Ctx, extra: &[String]) -> Report {
                 Ok(None) => std::thread::sleep(std::time::Duration::from_millis(20)),
                 Err(_) => break None,
             }
-        };
+        }
+    });
+    for ((name, src), status) in nested.iter().zip(statuses.into_iter()) {
         rep.evaluations += 1;
         rep.nontrivial.insert(name.clone());
         let shape = json!({"shape": name, "source_bytes": src.len(), "source_head": src.chars().take(80).collect::<String>()});
@@ -1198,7 +1200,7 @@ pub fn c20_aiken_text(ctx: &Ctx, extra: &[String]) -> Report {
             }
             None => {
                 rep.count("nested-timeout");
-                rep.fail(&format!("c20-aiken-text:nested-hang:{name}"), "does not finish within the time limit on deeply nested source", shape, json!({"limit_s": 4 * limit_s}));
+                rep.fail(&format!("c20-aiken-text:nested-hang:{name}"), "does not finish within the time limit on deeply nested source", shape, json!({"limit_s": limit_s}));
             }
         }
     }
